@@ -10,6 +10,10 @@
     modes, directory family, mapping shapes, summary corruption kinds).  (a) every base image of gen/mkbase.py and every
     image of the family (gen/c05_family.py) x the five modes; (b) corruptions confined to allocation summaries and
     checksum fields (gen/c05_summary.py, through the reader's location map) x modes.  The real e2fsck of the scratch build
+    The family also carries i_size boundaries (spec constant SizeFamily, limits SizeLimits): per mapping format and block size one healthy
+    file at every size class pass 1 compares with -- end of the mapping, inside the last block, written blocks past EOF as far as tolerated,
+    unwritten blocks past EOF, a hole at the end, the largest size of the format and one byte below it, the last mappable block mapped,
+    i_blocks in filesystem-block units -- and symlinks at the fast/slow and one-block boundaries; the tree oracle compares sizes.
     The family also carries (spec constants ExtStateFamily, CfDirFamily): written / unwritten (fallocated) extents -- every pattern
     of up to three neighbouring extents x logically+physically contiguous / hole / physically apart x trees that e2fsck leaves
     alone, collapses (pass 1E) or keeps in a leaf; the reader reads an unwritten block as zeros and every such block sits on
@@ -39,7 +43,8 @@ MC_DEVS = (("MC_FsckPreserve_devcoll.cfg", "DevRehashDropsCollision", "TreeUncha
            ("MC_FsckPreserve_devrebuild.cfg", "DevRebuildDropsLast", "TreeUnchanged"), ("MC_FsckPreserve_devcsum.cfg", "DevCsumClearsLeaf", "TreeUnchanged"),
            ("MC_FsckPreserve_devsbcsum.cfg", "DevSbCsumRefuses", "ExitOK"), ("MC_FsckPreserve_devuninit.cfg", "DevInodeUninitWipes", "TreeUnchanged"),
            ("MC_FsckPreserve_devmergestate.cfg", "DevRebuildMergesAcrossState", "TreeUnchanged"), ("MC_FsckPreserve_devenc.cfg", "DevEncCheckIgnoresStrict", "TreeUnchanged"),
-           ("MC_FsckPreserve_devdupfold.cfg", "DevDupFoldsPlainDir", "TreeUnchanged"), ("MC_FsckPreserve_devcfhash.cfg", "DevCasefoldOpaqueHashFails", "ConsistentAfter"))
+           ("MC_FsckPreserve_devdupfold.cfg", "DevDupFoldsPlainDir", "TreeUnchanged"), ("MC_FsckPreserve_devcfhash.cfg", "DevCasefoldOpaqueHashFails", "ConsistentAfter"),
+           ("MC_FsckPreserve_devsize.cfg", "DevSizeLimitInclusive", "TreeUnchanged"))
 
 
 # ------------------------------------------------------------------------------------------------------------------
@@ -260,12 +265,14 @@ def model_check(tier, ev, vd):
     mod = os.path.join(SPEC, "FsckPreserve.tla")
     # dir / map: names, collisions, leaf boundaries, block map vs extents, spill into a leaf, summary damage; dircf: casefold flag x strict
     # mode x invalid names x case twins; mapst: written / unwritten extents in trees that e2fsck rebuilds (InitStatePreserved)
-    cfgs = (["MC_FsckPreserve_dir.cfg", "MC_FsckPreserve_map_q.cfg", "MC_FsckPreserve_dircf.cfg", "MC_FsckPreserve_mapst.cfg"] if tier == "quick" else
-            ["MC_FsckPreserve_dir_t.cfg", "MC_FsckPreserve_map_t.cfg", "MC_FsckPreserve_dircf_t.cfg", "MC_FsckPreserve_mapst.cfg"])
+    # size: i_size classes of the file (end of the mapping, inside the last block, blocks past EOF, hole at the end, the limit of the
+    # mapping format and one byte below it) x block map / extents x written / unwritten (pass1.c check_blocks)
+    cfgs = (["MC_FsckPreserve_dir.cfg", "MC_FsckPreserve_map_q.cfg", "MC_FsckPreserve_dircf.cfg", "MC_FsckPreserve_mapst.cfg", "MC_FsckPreserve_size.cfg"] if tier == "quick" else
+            ["MC_FsckPreserve_dir_t.cfg", "MC_FsckPreserve_map_t.cfg", "MC_FsckPreserve_dircf_t.cfg", "MC_FsckPreserve_mapst.cfg", "MC_FsckPreserve_size_t.cfg"])
     for c in cfgs:
         r = T.tlc(mod, os.path.join(SPEC, c), workers=4, timeout=2400, xmx="4g")
         ev.add_tlc(r, "%s: every consistent start, <= MaxDamage summary corruptions, <= 2 runs in any mode; TreeUnchanged, ExitOK, ConsistentAfter, ModeScope, ContractRefined%s"
-                   % (c, ", InitStatePreserved" if "map" in c else ""))
+                   % (c, ", InitStatePreserved" if ("map" in c or "size" in c) else ""))
         if r.violated:
             vd.violation("model:%s:%s" % (c, r.violated), "FsckPreserve (%s): %s violated by the repaired design" % (c, r.violated), {"tlc": r.out[-4000:]})
         elif not r.ok:
@@ -307,7 +314,7 @@ def plan(tier, b, basedir, profiles, fam, univ, rng):
     # (a): every image x every mode, each on a fresh copy; thorough adds every ordered pair of modes run back to back
     for path, name in images:
         sc = [[None, [m]] for m in MODE_ORDER]
-        small = name.split(":")[1].split("_")[0] in ("st", "cf", "cfs")          # the small carriers of the extent-state / casefold families
+        small = name.split(":")[1].split("_")[0] in ("st", "cf", "cfs", "sz")    # the small carriers of the extent-state / casefold / i_size families
         if small and tier == "quick":
             pass                                                                  # five modes on fresh copies; sequences in the thorough tier
         elif tier == "thorough":
@@ -540,6 +547,10 @@ def run(tier):
             "with such names are built (indexed without the flag, then flagged)",
             "family images are no longer dropped when `e2fsck -fn` of the tree under test complains: whether a start is consistent is TLC's verdict on "
             "the reader's projection (BaseConsistent)",
+            "i_size universe (FsckPreserve!SizeFamily): the size of a regular file is healthy iff the last WRITTEN block starts at or below it and it "
+            "does not exceed what the mapping format expresses (block map: (12 + n + n^2 + n^3) * blocksize inclusive; extents: 2^32 * blocksize - 1); "
+            "the size carriers have huge_file, so that the 2^32-sector cap of i_blocks-in-sectors filesystems is not the binding limit; an element whose "
+            "sparse host file the host cannot hold is not built (family_note.images.<carrier>.not_built_on_this_host)",
             "not covered: encrypted directories, large_dir (3-level htree), extents longer than 32767/32768 blocks (the length split of the rebuild), "
             "unwritten extents on bigalloc / 4 KiB-block filesystems, casefold + summary-only corruption (universe b) in the quick tier",
         ]
